@@ -22,13 +22,13 @@ REPO = "/repo"
 # configuration needed to compile a file at all (files outside this table are in the default build)
 FILE_CFG = {
     "src/chacha/reference.rs": ("-C target-feature=-sse2", "", "check"),
-    "src/hashing/sha2/impl256/sse41.rs": ("-C target-feature=+sse4.1", "", "test"),
-    "src/hashing/sha2/impl256/avx.rs": ("-C target-feature=+avx", "", "test"),
-    "src/hashing/blake2/avx.rs": ("-C target-feature=+avx", "", "test"),
-    "src/hashing/blake2/avx2.rs": ("-C target-feature=+avx2", "", "test"),
-    "src/curve25519/fe/fe32/mod.rs": ("--cap-lints allow", "--features force-32bits", "test"),
-    "src/curve25519/fe/fe32/precomp.rs": ("--cap-lints allow", "--features force-32bits", "test"),
-    "src/curve25519/scalar/scalar32.rs": ("--cap-lints allow", "--features force-32bits", "test"),
+    "src/hashing/sha2/impl256/sse41.rs": ("-C target-feature=+sse4.1", "", "check"),
+    "src/hashing/sha2/impl256/avx.rs": ("-C target-feature=+avx", "", "check"),
+    "src/hashing/blake2/avx.rs": ("-C target-feature=+avx", "", "check"),
+    "src/hashing/blake2/avx2.rs": ("-C target-feature=+avx2", "", "check"),
+    "src/curve25519/fe/fe32/mod.rs": ("--cap-lints allow", "--features force-32bits", "check"),
+    "src/curve25519/fe/fe32/precomp.rs": ("--cap-lints allow", "--features force-32bits", "check"),
+    "src/curve25519/scalar/scalar32.rs": ("--cap-lints allow", "--features force-32bits", "check"),
 }
 
 TOK = re.compile(r"""
